@@ -507,13 +507,52 @@ public:
     for (size_t i = lim; i > 1; --i) { size_t j = static_cast<size_t>(r.below(static_cast<long>(i))); std::swap(entries[i - 1], entries[j]); }
     for (auto& e : entries) m.map[e.first] = e.second;
   }
+  // ---- vector / sequence descriptions and a parameter grid (NumCalcApplicationTools): extra entries of an option file whose shape
+  //      carries bit 20 (a bit no earlier plan sets; own generator stream, so the other entries are what they were without it)
+  static std::string vecDesc(Rng& r) {
+    auto num = [&](double lo, double hi) { return decimal(r.real(lo, hi), static_cast<int>(r.range(0, 2))); };
+    long k = r.below(100);
+    if (k < 30) { std::string s; long n = r.range(1, 5); for (long i = 0; i < n; ++i) { if (i) s += ","; s += num(-20, 20); } return s; }
+    if (k < 88) {
+      double from = r.real(-5, 5), span = r.real(0, 10);
+      std::string s = "seq(from=" + decimal(from, 1) + ",to=" + decimal(from + span, 1);
+      if (r.chance(0.55)) { static const char* ST[] = {"0.5", "1", "2", "0.25", "0.1", "3"}; s += std::string(",step=") + ST[r.below(6)]; }
+      else s += ",size=" + std::to_string(r.range(1, 20));
+      if (r.chance(0.3)) { static const char* SC[] = {"log", "exp", "10^"}; s += std::string(",scale=") + SC[r.below(3)]; }
+      return s + ")";
+    }
+    // unusual but legal byte strings
+    static const char* U[] = {"seq(from=0,to=1,step=0)", "seq(from=0,to=3,step=-1)", "seq(from=2,to=1,step=0.5)", "seq(from=0,to=1,size=0)", "seq(from=0,to=1,size=1)",
+                              "seq", "seq(", "seq()", "se", "seq(from=1,to=2)", "seq(to=2,step=1)", "seq(from=1,step=1)", "seq(from=0,to=1,step=0.5,scale=sqrt)", "", ",", "1,,2", "seq(from=a,to=b,step=c)"};
+    return U[r.below(17)];
+  }
+  static std::string intSeqDesc(Rng& r) {
+    std::string s; long n = r.range(1, 4);
+    for (long i = 0; i < n; ++i) { if (i) s += ","; long a = r.range(-5, 40); s += r.chance(0.5) ? std::to_string(a) + "-" + std::to_string(a + r.range(-3, 12)) : std::to_string(a); }
+    if (r.chance(0.2)) { static const char* U[] = {"-", "3-", "-4", "1--2", "a-b", "1-2-3", ",", "", "1,-,2", "--", "7,-"}; s = U[r.below(11)]; }
+    return s;
+  }
+  static void numcalcEntries(uint64_t seed, OptModel& m, std::vector<std::pair<std::string, std::string>>& entries) {
+    Rng r(seed ^ 0x6e756d63616c63ULL);
+    long k = r.range(1, 3);
+    if (!r.chance(0.1)) entries.push_back(std::make_pair(std::string("grid.number_of_parameters"), r.chance(0.06) ? std::string("0") : std::to_string(k + (r.chance(0.1) ? 1 : 0))));
+    for (long i = 1; i <= k; ++i) {
+      if (!r.chance(0.08)) entries.push_back(std::make_pair("grid.parameter" + std::to_string(i) + ".name", word(r, "abcxyz.", 1, 5)));
+      if (!r.chance(0.08)) entries.push_back(std::make_pair("grid.parameter" + std::to_string(i) + ".values", vecDesc(r)));
+    }
+    long extra = r.range(0, 2);
+    for (long i = 0; i < extra; ++i) entries.push_back(std::make_pair("vec" + std::to_string(i), r.chance(0.5) ? vecDesc(r) : intSeqDesc(r)));
+    for (auto& e : entries) m.map[e.first] = e.second;
+  }
   static bool opt(Doc& d, uint64_t seed, long shape) {
     Rng r(seed);
     OptModel& m = d.opt;
+    bool numcalc = (shape >> 20) & 1; shape &= (1L << 20) - 1;
     size_t n = static_cast<size_t>(shape % 9); shape /= 9;
     bool refs = shape & 1, comments = shape & 2, cont = shape & 4; m.cyclic = (shape & 8) && refs; m.cComment = shape & 16; bool undef = shape & 32, dup = shape & 64;
     std::vector<std::pair<std::string, std::string>> entries;
     optEntries(r, m, entries, n, refs, m.cyclic, undef, dup, "");
+    if (numcalc) numcalcEntries(seed, m, entries);
     d.kind = K_OPT; d.names = {"main.opt"}; d.orig = {renderOpt(r, entries, comments, m.cComment, cont, "=")};
     return true;
   }
